@@ -15,6 +15,7 @@ PROC_TIMEOUT = 900
 #   dscript := '-' | [01]*          1 = discovery run k completes inside RunFull/IncrementalDiscovery
 #   ops     := '-' | op*            op := P (Pause) | R (Resume) | S(ops) submit a request whose completion
 #              callback performs ops | F(ops) full discovery | I(ops) incremental discovery |
+#              s submit a request with a NULL completion callback |
 #              f | i full / incremental discovery with a NULL callback |
 #              D reply ; the underlying controller answers its oldest outstanding request |
 #              E the underlying controller finishes its oldest outstanding discovery
@@ -58,20 +59,22 @@ TRUSTED = ['modelled rather than verified: QueueingRDMController.cpp (all method
            'the property verdict keys conc/ps/dup/ooo/bad/lost/rj are computed by the C++ harness from the '
            "mock's and the callbacks' own observations"]
 LEVEL_TEXT = ('Coq theorems over an executable small-step model (explicit call-stack agenda, scripted re-entrant '
-              'callbacks, synchronous/deferred answers of the underlying controller) of both queueing controllers, '
-              'proved by invariants for every configuration reachable by any history: the run always reaches '
-              'quiescence (no OutOfFuel, OLA_FATAL branch unreachable); every request, also one submitted from a callback the destructor runs, completes exactly '
-              'once, queued requests in submission order, rejected exactly when the queue is full, non-answer '
-              'completions carry FAILED_TO_SEND, answered ones are built only from answers to dispatches of that '
-              'request; at most one request or discovery is outstanding at every instant; nothing is sent while '
-              'paused; an ACK_OVERFLOW chain is delivered as the in-order concatenation (<= 4096 bytes) or one error; '
-              'each discovery request is taken by exactly one run, a run takes all waiting requests and is full iff '
-              'one asked for full, callbacks run at most once and by the run that took them.  The model is tied to the '
-              'C++ by a differential correspondence check after every operation (ASan/UBSan build of the working tree).')
+              'callbacks, synchronous/deferred answers of the underlying controller, live destructor callbacks, NULL '
+              'discovery callbacks) of both queueing controllers, proved by invariants for every configuration any '
+              'history can reach: termination (no OutOfFuel, OLA_FATAL branch unreachable); every request completes '
+              'exactly once, queued ones in submission order, rejected exactly when the queue is full, non-answers '
+              'carry FAILED_TO_SEND, answers are built only from answers to dispatches of that request; at most one '
+              'request or discovery outstanding at every instant; nothing sent while paused (counter and step-level '
+              'form); ACK_OVERFLOW chains delivered as the in-order concatenation (CombineResponses characterised '
+              'exactly, limit 4096 inclusive, type/PID/message count of the result), nothing of a session leaks into '
+              'another request; discovery requests each taken by exactly one run that takes all waiting ones and is '
+              'full iff one asked for full; progress: an active idle controller has nothing waiting once the call stack '
+              'is empty; and the verdict values the model prints are proved constant.  Tied to the C++ by a differential '
+              'correspondence check after every operation (ASan/UBSan build of the working tree).')
 LEVEL_NOTE = ('Trusted: Coq kernel, extraction (ExtrOcamlBasic), OCaml/C++ glue, generator coverage of the '
               'correspondence; model = code is validated by differential testing, not proved.  Destruction is '
-              'modelled as the last operation of a history, with live callbacks (submit/pause/resume).  Discovery theorems are '
-              'safety statements (which run serves which request), not liveness.  The verdict keys '
+              'modelled as the last operation of a history, with live callbacks (submit/pause/resume).  Liveness is proved only in the form of c12_progress '
+              '(nothing waits at quiescence); eventual answers of the underlying controller are inputs.  The verdict keys '
               'conc/ps/dup/ooo/bad/lost/rj/dv are computed independently by the C++ harness and by the extracted model.')
 TECHNIQUE = 'Coq invariant proofs on a hand-written executable state-machine model + extracted-model/implementation differential correspondence'
 DESIGN_REF = 'DESIGN.md §4 C12'
@@ -114,7 +117,7 @@ def rand_ops(rng, n, depth, discov, budget):
         elif k < 0.96 and discov:
             out.append(rng.choice('fi'))
         else:
-            out.append(rng.choice(['S()', 'D%s;' % rp(0, 3), 'D%s;' % rp(0, 0)]))
+            out.append(rng.choice(['S()', 's', 's', 'D%s;' % rp(0, 3), 'D%s;' % rp(0, 0)]))
     return ''.join(out)
 
 
@@ -197,14 +200,14 @@ def scenarios(rng, n):
             ops += 'RE' + rng.choice(['', 'E', 'ED%s;' % ack()])
             yield '%d 1 %s %s %s' % (mx, rand_mscript(rng, rng.randrange(3)), rand_dscript(rng, rng.randrange(4)), ops)
         elif kind == 5:    # destruction with live callbacks: queued / in-flight requests whose callbacks re-enter
-            inner = lambda d=0: rng.choice(['', 'S()', 'R', 'P', 'S()S()', 'RS()', 'S(R)', 'PS()R', 'F()', 'E', 'D%s;' % ack()] +
+            inner = lambda d=0: rng.choice(['', 'S()', 's', 'R', 'P', 'S()S()', 'RS()', 'S(R)', 'PS()R', 'F()', 'E', 'D%s;' % ack()] +
                                            (['S(%s)' % inner(d + 1)] * 3 if d < 2 else []))
             ops = rng.choice(['', 'P', 'F()' if discov else 'P', 'S()D%s;' % ovf()])
-            ops += ''.join('S(%s)' % inner() for _ in range(rng.randrange(1, mx + 2)))
+            ops += ''.join(rng.choice(['S(%s)' % inner(), 'S(%s)' % inner(), 's']) for _ in range(rng.randrange(1, mx + 2)))
             ops += rng.choice(['', '', 'P', 'D%s;' % ovf(), 'R'])
             yield '%d %d %s %s %s' % (mx, discov, rand_mscript(rng, rng.choice([0, 0, 2, 4])), rand_dscript(rng, 2), ops)
         else:              # queue limit
-            ops = rng.choice(['', 'P']) + 'S()' * (mx + rng.choice([-1, 0, 1, 2]))
+            ops = rng.choice(['', 'P']) + ''.join(rng.choice(['S()', 'S()', 's']) for _ in range(mx + rng.choice([-1, 0, 1, 2])))
             ops += rng.choice(['', 'R', 'D%s;' % ack(), 'D%s;S()S()' % ack()])
             yield '%d %d %s - %s' % (mx, discov, rand_mscript(rng, rng.randrange(3)), ops)
 
